@@ -21,7 +21,7 @@ func C13(c *Ctx) {
 		"(R4) an operation is retired only after its result was posted (or written back); (R5) the pool view is filtered by tombstones and the tombstone is written first. " +
 		"NOT decided: LevelDB atomicity, the crash-point enumeration itself (each rule is the ordering fact that enumeration would need at that point)."
 	r.Trusted = []string{"goleveldb single-key Put atomicity", "VTA call graph for constructor reachability", "go/ssa"}
-	r.Rule("C13/R1", "start-up constructors write durable keys only when the key is absent", 3)
+	r.Rule("C13/R1", "start-up constructors write durable keys only when the key is absent; the stores are opened with goleveldb's tolerant recovery options", 5)
 	r.Rule("C13/R2", "offset is saved after the message was handled, as message.Offset+1; LoadOffset feeds GetMessages", 3)
 	r.Rule("C13/R3", "derived work (operation) is durable no later than the state change that makes the message unrepeatable", 1)
 	r.Rule("C13/R4", "post before retire", 2)
@@ -30,6 +30,70 @@ func C13(c *Ctx) {
 	c13Poll(c)
 	c13Order(c)
 	c13Retire(c)
+	openTolerant(c, "C13/R1", []string{"client/modules/state", "client/modules/keystore"})
+}
+
+// openTolerant: a process killed in the middle of a LevelDB write leaves a torn last journal record. With the default
+// options goleveldb drops that record when the database is opened again and the node comes up with the state as of the
+// previous write; Strict journal/manifest checking turns the same file into an error at start-up, ErrorIfMissing /
+// ErrorIfExist / ReadOnly make a (first) start or any write fail. The durable stores are therefore opened with nil
+// options or with an Options literal that sets none of these.
+func openTolerant(c *Ctx, rule string, pkgs []string) {
+	r := c.R
+	forbidden := map[string]bool{"Strict": true, "ErrorIfMissing": true, "ErrorIfExist": true, "ReadOnly": true}
+	n := 0
+	for fn := range c.P.AllFuncs() {
+		if !load.InModule(fn) || c.isTestFunc(fn) || fn.Pkg == nil || len(fn.Blocks) == 0 {
+			continue
+		}
+		in := false
+		for _, p := range pkgs {
+			if strings.HasSuffix(fn.Pkg.Pkg.Path(), p) {
+				in = true
+			}
+		}
+		if !in {
+			continue
+		}
+		for _, call := range ssax.Calls(fn, true, func(ci ssa.CallInstruction) bool {
+			id := ssax.FuncID(ssax.CalleeObj(ci))
+			return id == "github.com/syndtr/goleveldb/leveldb.OpenFile" || id == "github.com/syndtr/goleveldb/leveldb.Open" || id == "github.com/syndtr/goleveldb/leveldb.RecoverFile" || id == "github.com/syndtr/goleveldb/leveldb.Recover"
+		}) {
+			n++
+			key := lastSeg(fn.Pkg.Pkg.Path()) + "." + fn.Name() + ":open-options"
+			if strings.Contains(ssax.FuncID(ssax.CalleeObj(call)), "Recover") {
+				r.Fail(rule, key, "the store is opened, not rebuilt", c.PosOf(call), "RecoverFile rebuilds the database from its tables and drops what is only in the journal: the last writes before a kill are lost at every start")
+				continue
+			}
+			opt := ssax.Resolve(call.Common().Args[1])
+			if ssax.IsNilConst(opt) {
+				r.OKd(rule, key, "opened with default (tolerant) recovery options", c.PosOf(call), "options = nil")
+				continue
+			}
+			al, isAlloc := opt.(*ssa.Alloc)
+			if !isAlloc || al.Referrers() == nil {
+				r.Unknown(rule, key, "options are nil or a literal in the opening function", c.PosOf(call), "options come from "+ssax.Path(opt))
+				continue
+			}
+			var set []string
+			for _, ref := range *al.Referrers() {
+				if fa, ok := ref.(*ssa.FieldAddr); ok && ssax.FieldOf(fa) != nil && forbidden[ssax.FieldOf(fa).Name()] && fa.Referrers() != nil {
+					for _, u := range *fa.Referrers() {
+						if st, ok := u.(*ssa.Store); ok && st.Addr == ssa.Value(fa) {
+							if k, isC := st.Val.(*ssa.Const); isC && (k.Value == nil || k.Value.String() == "0" || k.Value.String() == "false") {
+								continue
+							}
+							set = append(set, ssax.FieldOf(fa).Name())
+						}
+					}
+				}
+			}
+			sort.Strings(set)
+			r.Check(len(set) == 0, rule, key, "the options keep goleveldb's tolerant recovery (no Strict / ErrorIfMissing / ErrorIfExist / ReadOnly)", c.PosOf(call),
+				"options set "+strings.Join(set, ", ")+": a journal record torn by a kill in the middle of a write (or a missing/existing directory) makes every later start fail instead of resuming from the last complete write")
+		}
+	}
+	r.Check(n >= 1, rule, "open-options:census", "the durable stores are opened through goleveldb's OpenFile", "", sprintf("%d open calls found in %v", n, pkgs))
 }
 
 func isStoreWrite(ci ssa.CallInstruction) bool {
